@@ -34,8 +34,73 @@ def span(rng):
     return pat, t0, tf, dt
 
 
+def event_continuation_block(ctx, rng):
+    """fixed-step methods across a terminal event: the sub-steps that land on the event are shorter, but the step size in force is the
+    requested one again afterwards - every step of the continuation call except its last has magnitude dt, with or without dense output,
+    forward and backward, on any part of the time axis"""
+    for name in FIXED_EXPLICIT[:4] if ctx.quick() else FIXED_EXPLICIT:
+        cls = getattr(I, name)
+        for rep in range(2 if ctx.quick() else 8):
+            pat, t0, tf, dt = span(rng)
+            d = 1.0 if tf > t0 else -1.0
+            # a terminal event in a regular (non-final) step: the time t0 + 0.37 .. 0.6 of the span
+            te = t0 + (tf - t0) * rng.uniform(0.37, 0.6)
+
+            def ev(t, y, te=te, **kw):
+                return t - te
+            ev.is_terminal = True
+            ev.direction = 0
+            inp = dict(kind="fixed-step-across-terminal-event", method=name, t0=t0, tf=tf, dt=dt, event_time=te)
+            try:
+                o = de.OdeSystem(auto_rhs, y0=np.array([1.0, 0.3]), t=(t0, tf), dt=dt, dense_output=rng.random() < 0.5)
+                o.set_method(cls)
+                o.integrate(events=[ev])
+                n1 = len(o.t)
+                stopped = o.integration_status.startswith("Integration terminated")
+                o.integrate()
+            except Exception as e:
+                ctx.oracle("event-continuation-runs", False, dict(inp, error=repr(e)[:200]), what="run raised %r" % (e,))
+                continue
+            if not stopped:
+                ctx.count("event-continuation:event-not-hit")
+                continue
+            steps = np.diff(np.array(o.t))[n1 - 1:]
+            ulp = 8 * float(np.spacing(max(abs(t0), abs(tf), 1.0)))
+            ok = len(steps) >= 1 and bool(np.all(np.abs(np.abs(steps[:-1]) - abs(dt)) <= ulp)) and abs(steps[-1]) <= abs(dt) + ulp and bool(np.all(steps * d > 0))
+            ctx.oracle("recorded-steps-after-terminal-event", ok, dict(inp, steps_after_event=[float(x) for x in steps[:4]], n=len(steps), dt_in_force=float(o.dt)),
+                       what="after the stop at the event the continuation took steps %s instead of %r" % ([float(x) for x in steps[:3]], abs(dt) * d))
+            ctx.count("event-continuation:" + name)
+
+
+def exact_fit_block(ctx, rng):
+    """the boundary of 'all dt <= span': a step that fits the remaining distance EXACTLY (a call of exactly one dt; a continuation of
+    exactly one dt on a dyadic grid) is taken as one step of dt, not clipped"""
+    for name in FIXED_EXPLICIT[:3] if ctx.quick() else FIXED_EXPLICIT:
+        cls = getattr(I, name)
+        for (t0, tf, dt, first) in [(0.0, 1.0, 1.0, None), (0.0, -2.0, 2.0, None), (1.0, 3.0, 0.5, 2.5), (0.0, -1.0, 0.25, -0.75), (-3.0, -1.0, 0.125, -1.125), (2.0, 2.5, -0.5, None)]:
+            inp = dict(kind="fixed-step-exact-fit", method=name, t0=t0, tf=tf, dt=dt, first_call_target=first)
+            try:
+                o = de.OdeSystem(auto_rhs, y0=np.array([1.0, 0.3]), t=(t0, tf), dt=dt)
+                o.set_method(cls)
+                if first is not None:
+                    o.integrate(first)
+                n1 = len(o.t)
+                o.integrate()
+            except Exception as e:
+                ctx.oracle("exact-fit-runs", False, dict(inp, error=repr(e)[:200]), what="run raised %r" % (e,))
+                continue
+            steps = np.diff(np.array(o.t))
+            d = 1.0 if tf > t0 else -1.0
+            ok = bool(np.all(steps == abs(dt) * d)) and len(o.t) - n1 == 1
+            ctx.oracle("step-that-fits-exactly-is-one-step", ok, dict(inp, steps=[float(x) for x in steps[-4:]], last_call_steps=len(o.t) - n1),
+                       what="a remaining distance of exactly dt was covered in %d steps %s" % (len(o.t) - n1, [float(x) for x in steps[-3:]]))
+            ctx.count("exact-fit:" + name)
+
+
 def run(ctx):
     rng = ctx.rng
+    event_continuation_block(ctx, rng)
+    exact_fit_block(ctx, rng)
     nrun = 4 if ctx.quick() else 40
     scs, lines = [], []
     for name in FIXED_EXPLICIT:
